@@ -125,8 +125,13 @@ class EngineProp(Prop):
                 return 'step %d (%s): impl %s / model %s' % (idx, marker, ' '.join(outs)[:300], ' '.join(mo)[:300])
         t = ','.join(map(str, obs['final']['table'])) or '-'
         c = ','.join(map(str, obs['final']['cache'])) or '-'
-        if fin.strip() != 'T=%s C=%s' % (t, c):
+        fin_tc, _, pend = fin.strip().partition(' P=')
+        if fin_tc != 'T=%s C=%s' % (t, c):
             return 'final state: impl T=%s C=%s / model %s' % (t, c, fin.strip())
+        if pend not in ('', '-'):
+            # the loop was left to settle after every group, so every done-callback the library registers has run (and was logged as an
+            # event); a callback the model still expects was never registered or never ran
+            return 'final state: the model expects the done-callback of object(s) %s to run; the implementation never ran it' % pend
 
     def nontrivial(self, case, obs):
         if len(obs['steps']) >= 4 and len(obs['kinds']) >= 1:
